@@ -169,10 +169,15 @@ func registerIntrinsics(M map[string]Model) {
 		if tag == "dec+" {
 			// memory a decode may hand out: allocated during the decode, already owned by the caller,
 			// or a pointer-free chunk of the pooled decoder's bump allocator (handed out once, see the span lemma)
-			ok := b.owner == "dec" || b.owner == "user" || (b.owner == "pool" && b.noscan && strings.HasPrefix(b.name, "mallocgc"))
+			ok := b.owner == "dec" || b.owner == "user" || (b.owner == "pool" && b.noscan && strings.HasPrefix(b.name, "mallocgc")) ||
+				(b.owner == "const" && b.readonly) // immutable string literals referenced by declared defaults
 			return m.ctx.Bool(ok)
 		}
 		return m.ctx.Bool(b.owner == tag)
+	})
+	I("IsStatic", func(m *Machine, fr *Frame, a []Value) Value {
+		b := blockOf(m, a[0])
+		return m.ctx.Bool(b != nil && b.owner == "const" && b.readonly)
 	})
 	I("BlockID", func(m *Machine, fr *Frame, a []Value) Value {
 		b := blockOf(m, a[0])
